@@ -697,6 +697,119 @@ def rule_r13(prog, res):
     res.floor('R13', 'namespace cleanups in the XML protocols', n, 1)
 
 
+# ------------------------------------------------------------------ R14
+def rule_r14(prog, res):
+    res.rule('R14', 'the polymorphic switch compares the instance with the '
+             'original of the declared class (instances are never instances '
+             'of a customized variant)')
+    pm = prog.cls('spyne.protocol._base:ProtocolMixin')
+    f = pm.methods.get('get_polymorphic_target')
+    if f is None:
+        raise AnalysisError('ProtocolMixin.get_polymorphic_target',
+                            'not found')
+    ps = [p_ for p_ in f.params() if p_ != 'self']
+    decl, inst = ps[0], ps[1]
+    normalised = {a.targets[0].id for a in walk_no_defs(f.node)
+                  if isinstance(a, ast.Assign) and len(a.targets) == 1 and
+                  isinstance(a.targets[0], ast.Name) and
+                  '__orig__' in unparse(a.value)}
+    tests = []
+    for n in walk_no_defs(f.node):
+        if isinstance(n, ast.Call) and call_name(n) in ('isinstance',
+                                                        'issubclass') and \
+                len(n.args) == 2 and inst in unparse(n.args[0]):
+            tests.append((n, n.args[1]))
+        if isinstance(n, ast.Compare) and len(n.ops) == 1 and isinstance(
+                n.ops[0], (ast.Is, ast.IsNot, ast.Eq, ast.NotEq)) and \
+                '%s.__class__' % inst == unparse(n.left):
+            tests.append((n, n.comparators[0]))
+    res.floor('R14', 'class tests on the instance', len(tests), 2)
+    for n, other in tests:
+        txt = unparse(other)
+        ok = (isinstance(other, ast.Name) and other.id in normalised) or \
+            '__orig__' in txt
+        where = '%s:%d' % (f.module.relpath, n.lineno)
+        res.ob('R14', where, 'get_polymorphic_target: %s' % unparse(n)[:60],
+               'ok' if ok else 'VIOLATED')
+        if not ok and txt == decl:
+            res.finding('R14', 'ProtocolMixin.get_polymorphic_target|'
+                        'declared-variant|%s' % type(n).__name__, where,
+                        '%s tests the instance against the declared class '
+                        'itself: when the slot is declared with a customized '
+                        'variant (every Array member, Base.customize(...)) '
+                        'no instance is an instance of that variant, so the '
+                        'switch is skipped and the subclass members are '
+                        'dropped' % unparse(n)[:60])
+
+
+# ------------------------------------------------------------------ R15
+def rule_r15(prog, res):
+    res.rule('R15', 'child elements are read through from_element (where '
+             'xsi:type and xsi:nil are honoured); namespaces are compared by '
+             'value; the cycle guard is path-local (C02-R6)')
+    x = prog.cls('spyne.protocol.xml:XmlDocument')
+    n = 0
+    for nm, f in sorted(x.methods.items()):
+        for s_ in walk_no_defs(f.node):
+            if isinstance(s_, ast.Subscript) and isinstance(
+                    s_.ctx, ast.Load) and unparse(s_.value) == \
+                    'self.deserialization_handlers':
+                n += 1
+                ok = nm == 'from_element'
+                where = '%s:%d' % (f.module.relpath, s_.lineno)
+                res.ob('R15', where, '%s looks a reader up in '
+                       'deserialization_handlers' % f.qualname,
+                       'ok' if ok else 'VIOLATED')
+                if not ok:
+                    res.finding('R15', '%s|handler-lookup-bypasses-'
+                                'from_element' % f.qualname, where, '%s takes '
+                                'the reader from deserialization_handlers '
+                                'itself and calls it on child elements: '
+                                'xsi:type (and xsi:nil) of the children are '
+                                'not looked at, so subclass instances inside '
+                                'an array are rebuilt as the declared base '
+                                'class' % f.qualname)
+    res.floor('R15', 'reader lookups in XmlDocument', n, 1)
+    import re
+    nslike = re.compile(r'(^|[_.])(t?ns|namespace)(\b|$)|get_namespace\(\)|'
+                        r'get_type_name\(\)')
+    k = 0
+    for mod in prog.modules.values():
+        if not mod.relpath.startswith('spyne/interface/'):
+            continue
+        for f in mod.functions.values():
+            for c in walk_no_defs(f.node):
+                if not (isinstance(c, ast.Compare) and len(c.ops) == 1 and
+                        isinstance(c.ops[0], (ast.Is, ast.IsNot))):
+                    continue
+                l, r = c.left, c.comparators[0]
+                if isinstance(r, ast.Constant) or isinstance(l, ast.Constant):
+                    continue
+                lt, rt = unparse(l), unparse(r)
+                if rt.endswith('.Empty') or lt.endswith('.Empty'):
+                    continue
+                if not (nslike.search(lt) and nslike.search(rt)):
+                    continue
+                k += 1
+                where = '%s:%d' % (mod.relpath, c.lineno)
+                res.ob('R15', where, '%s: %s' % (f.qualname, unparse(c)),
+                       'VIOLATED')
+                res.finding('R15', '%s|namespace-identity|%s' % (
+                    f.qualname, unparse(c)[:40]), where, '%s compares two '
+                    'namespace strings by identity (%s): equal strings that '
+                    'are distinct objects (built at import time, from '
+                    'settings, in another module) fail the test, so '
+                    'subclasses in the same namespace are not registered '
+                    'and their xsi:type markers do not resolve' % (
+                        f.qualname, unparse(c)))
+    res.ob('R15', 'spyne/interface', '%d identity comparisons between '
+           'namespace values' % k, 'ok' if not k else 'VIOLATED')
+    from . import c02
+    from ..report import Result
+    res.share('R15', 'the cycle guard is path-local (C02-R6)', 'C02',
+              c02.rule_r6, prog, Result)
+
+
 def run(prog, res, tier):
     res.run_rule(rule_r1, prog, res)
     res.run_rule(rule_r2, prog, res)
@@ -711,6 +824,8 @@ def run(prog, res, tier):
     res.run_rule(rule_r11, prog, res)
     res.run_rule(rule_r12, prog, res)
     res.run_rule(rule_r13, prog, res)
+    res.run_rule(rule_r14, prog, res)
+    res.run_rule(rule_r15, prog, res)
 
 
 _C = 'spyne/model/complex.py'
@@ -720,6 +835,22 @@ _I = 'spyne/interface/_base.py'
 _H = 'spyne/protocol/dictdoc/hier.py'
 
 MUTANTS = [
+    Mutant('array-items-bypass-from-element', 'R15', 'fire',
+           'spyne/protocol/xml.py',
+           in_func('XmlDocument.array_from_element',
+                   "retval.append(self.from_element(ctx, serializer, child))",
+                   "retval.append(self.deserialization_handlers[serializer]("
+                   "ctx, serializer, child))"),
+           'handler-lookup-bypasses-from_element'),
+    Mutant('subclass-namespace-identity', 'R15', 'fire',
+           'spyne/interface/_base.py',
+           in_func('Interface.add_class', "if child_ns == ns:",
+                   "if child_ns is ns:"), 'namespace-identity'),
+    Mutant('polymorphic-test-against-variant', 'R14', 'fire',
+           'spyne/protocol/_base.py',
+           in_func('ProtocolMixin.get_polymorphic_target',
+                   "if not isinstance(inst, orig_cls):",
+                   "if not isinstance(inst, cls):"), 'declared-variant'),
     Mutant('plain-namespace-cleanup', 'R13', 'fire', 'spyne/protocol/xml.py',
            in_func('XmlDocument.serialize',
                    "self._cleanup_namespaces(ctx.out_document)",
